@@ -1396,8 +1396,9 @@ fn gen_modulus(r: &mut Xoshiro, limbs: usize) -> Vec<u64> {
         1 => BigUint::from(3u8),
         2 => &rr - 1u32,
         3 => (&rr >> 1) + 1u32,
-        4 => (&rr / 3u32) | &one,
-        5 => (&rr / 4u32) | &one,
+        // about 2^BITS/3 and 2^BITS/4, and their odd neighbours
+        4 => ((&rr / 3u32) | &one) + 2u64 * r.below(3),
+        5 => ((&rr / 4u32) | &one) + 2u64 * r.below(3),
         6 if limbs > 1 => {
             // whole zero high limbs
             let k = r.range(1, limbs as u64 - 1) as usize;
